@@ -75,6 +75,18 @@ def run_case(case):
       got = e.norm(cfg, _guard(merged.result, f'{what}: merged result'))
       want = e.norm(cfg, _guard(whole.result, f'{what}: whole result'))
       _cmp(e, cfg, got, want, f'{what}: merged vs whole-batch', 'batching-changes-result')
+      # a second roll-up over the same shard accumulators (all but the receiver of the first one) into a fresh accumulator:
+      # the accumulators that were merged in are used again, e.g. a partial and then a global roll-up
+      rest = [r for sh in (shards if case['fresh_target'] else shards[1:]) for b in sh for r in b]
+      if len(accs) >= 3 and len(rest) >= max(e.min_batch, 1):
+        again = e.make(cfg)
+        for other in accs[1:]:
+          _guard(lambda other=other: again.merge(other), f'{what}: second roll-up merge')
+        whole2 = e.make(cfg)
+        whole2.add(*e.args(cfg, rest))
+        _cmp(e, cfg, e.norm(cfg, _guard(again.result, f'{what}: second roll-up result')), e.norm(cfg, whole2.result()),
+             f'{what}: second roll-up over the already merged-in shard accumulators vs one batch of their rows {rest}',
+             'batching-changes-result')
   else:
     fn = e.agg(cfg)
     wstate = _guard(lambda: fn.update_state(fn.create_state(), *e.args(cfg, all_rows)), f'{what}: whole update_state')
